@@ -35,7 +35,11 @@ Fixpoint items_defined (its : list item) (args : list farg) : bool :=
   | IDir sp :: r =>
     match args with
     | [] => true
-    | a :: args' => c_defined sp a && items_defined r args'
+    | a :: args' =>
+      match resolve sp a with
+      | Some a' => c_defined sp a' && items_defined r args'
+      | None => true
+      end
     end
   end.
 
